@@ -12,9 +12,13 @@ def _mod():
 # ------------------------------------------------------------------ internal-stage drift detectors
 def stage_drift(ctx, res, lines, cfgs, label):
     """pub-but-hidden stages (parse_number via the hook, try_fast_path, compute_float, compute_error,
-    Bellerophon mul/normalize, parse_mantissa, positive/negative_digit_comp, slow, rounding steps):
-    implementation == model on the same lines.  Never a verdict by itself: a difference is drift."""
+    Bellerophon mul/normalize, parse_mantissa, positive/negative_digit_comp, rounding steps):
+    implementation == model on the same lines.  NEVER a verdict by itself (a behaviour-preserving refactor
+    may legitimately change an internal stage): differences are recorded in the evidence, localise a
+    disagreement found elsewhere, and make the check search deeper (extra rounds).  Only an abort
+    (undefined-behaviour precondition check, crash) is reported directly."""
     n = 0
+    diffs = res.extra.setdefault("stage_differences", [])
     for c in cfgs:
         if c not in ctx.cfgs:
             continue
@@ -24,15 +28,19 @@ def stage_drift(ctx, res, lines, cfgs, label):
             for line, I, Mx in zip(lines, impl, model):
                 m, trap, sp = _mod().parse_model(Mx)
                 n += 1
+                bad = False
                 if I.startswith("abort"):
                     res.viol.append(("abort", dict(case=line[:500], cfg=c, profile=p, impl=I)))
                 elif I.startswith("unknown-command"):
                     continue
                 elif I.startswith("panic"):
-                    if not (p == "dbg" and trap) and not m.startswith("panic"):
-                        res.drift.append(dict(case=line[:500], cfg=c, profile=p, impl=I, model=m[:200], note="stage " + label))
-                elif I != m:
-                    res.drift.append(dict(case=line[:500], cfg=c, profile=p, impl=I[:200], model=m[:200], note="stage " + label))
+                    bad = not (p == "dbg" and trap) and not m.startswith("panic")
+                else:
+                    bad = I != m
+                if bad:
+                    res.extra["stage_difference_count"] = res.extra.get("stage_difference_count", 0) + 1
+                    if len(diffs) < 10:
+                        diffs.append(dict(stage=label, case=line[:300], cfg=c, profile=p, impl=I[:160], model=m[:160]))
     res.extra["stage_" + label] = res.extra.get("stage_" + label, 0) + n
     res.evals += n
 
@@ -334,20 +342,12 @@ def run_C06(ctx, rng, tier, res, known):
         cases += _mod().cases_long(rng, tier, f)
         cases += gens.gen_bigint_ties(rng, f, 1200 if tier == "quick" else 30000)
     _mod().check_pf("C06", cases, ctx.cfgs, ctx.profiles, res, known)
-    # drift detector for parse_mantissa (digit bookkeeping)
+    # internal-stage detector for parse_mantissa (digit bookkeeping); never a verdict by itself
     pm = []
     for line, fam in cases[:: (10 if tier == "quick" else 3)]:
         t = line.split()
         pm.append("pm %s %s %d" % (t[2], t[3], gens.FMT[t[1]]["maxdig"]))
-    for c in ("std", "std+alloc"):
-        if c not in ctx.cfgs:
-            continue
-        I = run_impl(c, "release", pm)
-        M = run_model(c, "release", pm)
-        for a, b, l in zip(I, M, pm):
-            mm, trap, s = _mod().parse_model(b)
-            if a != mm:
-                res.drift.append(dict(case=l[:300], cfg=c, impl=a[:200], model=mm[:200], note="parse_mantissa differs"))
+    stage_drift(ctx, res, pm, ("std", "std+alloc"), "parse_mantissa")
     return {}
 
 # ------------------------------------------------------------------ C07
